@@ -148,7 +148,7 @@ var All = []*Prop{
 		Explanation: "R-INTERRUPTSYNC decides the race-freedom clause for the engine's own accesses: vm.interrupted is only touched through sync/atomic, vm.interruptVal only between interruptLock.Lock/Unlock, the value is published before the flag is raised, the flag is raised only in vm.Interrupt and cleared only in vm.ClearInterrupt which is reached only from the public API and leaveAbrupt (so it stays raised for the whole unwinding), and the transitive callees of Runtime.Interrupt/ClearInterrupt touch no other runtime state. " +
 			"R-POLL: every instruction-dispatch loop loads the flag atomically on each iteration, unconditionally, before the dispatch, and the loaded value gates the dispatch. " +
 			"R-UNCATCHABLECLOSE: code that closes iterators on an exceptional path is guarded by a classification that excludes uncatchable payloads ('run no further catch or finally'). " +
-			"R-TRYPAIR/R-BOUNDARY (see C03): the runtime is reusable afterwards, queued jobs are dropped.",
+			"R-TRYPAIR/R-BOUNDARY/R-SCOPEDSTATE (see C03): the runtime is reusable afterwards, queued jobs are dropped, no activation marker stays set.",
 		Technique:  "atomic/lockset/ordering/who-may-write rules and effect containment over the call graph; dominance of the poll in dispatch loops; controlling-condition classification of cleanup calls",
 		DesignRef:  "DESIGN.md section 4, C15",
 		NotCovered: "wall-clock promptness inside a single long-running native builtin (one instruction), interrupt-while-idle semantics beyond the boundary rule, races inside dependencies",
@@ -178,11 +178,12 @@ var All = []*Prop{
 	},
 	{
 		ID:    "C03",
-		Rules: []*core.Rule{rules.TryPair, rules.Boundary, rules.CtxFields},
+		Rules: []*core.Rule{rules.TryPair, rules.Boundary, rules.CtxFields, rules.ScopedState},
 		Explanation: "goja unwinds by Go panics; handleThrow stops at the first tryPanicMarker frame for payloads it does not convert and trusts the frame's owner to pop it. " +
 			"R-TRYPAIR: every function that acquires a marker frame (pushTryFrame(tryPanicMarker,..) or a wrapper that hands the frame to its caller) registers popTryFrame in a defer before any other call; frames turned into markers in place are tagged and skipped by handleThrow for uncatchable payloads. " +
 			"R-BOUNDARY: in each recover handler that converts an uncatchable payload into an error return, the uncatchable branch reaches leaveAbrupt() guarded only by the empty call stack, other payloads are re-panicked, every normal return passes leave()/clearStack(), and leaveAbrupt drops the job queue and clears the interrupt flag. " +
-			"R-CTXFIELDS: the register set saved by saveCtx, restored by restoreCtx and by handleThrow equals the fields of `context`; every auxiliary stack of vm is snapshotted by pushTryFrame and truncated on unwinding; suspend/resume move exactly the per-activation stacks and re-base exactly the positional tryFrame fields. All sets are derived from the struct declarations on each run.",
+			"R-CTXFIELDS: the register set saved by saveCtx, restored by restoreCtx and by handleThrow equals the fields of `context`; every auxiliary stack of vm is snapshotted by pushTryFrame and truncated on unwinding; suspend/resume move exactly the per-activation stacks and re-base exactly the positional tryFrame fields. All sets are derived from the struct declarations on each run. " +
+			"R-SCOPEDSTATE: vm fields that name the activation being run for the duration of one Go call (table: curAsyncRunner) are reset by a deferred closure registered before any further call, so that a panic-borne unwind (interrupt, stack overflow, host panic) cannot leave them set on the idle Runtime.",
 		Technique:  "panic-safe acquire/release pairing (defer-before-next-call), must-pass-through on the CFG with controlling-condition classification, writer/reader field-set agreement derived from struct declarations",
 		DesignRef:  "DESIGN.md section 4, C03",
 		NotCovered: "that the restored values are the right ones (offset arithmetic), call-depth limit arithmetic, effects of a failed k-th callback inside a builtin on that builtin's own data, 'behaves exactly as a runtime that executed only the completed effects' as a whole",
@@ -198,19 +199,22 @@ var All = []*Prop{
 	},
 	{
 		ID:    "C04",
-		Rules: []*core.Rule{rules.SetOwnGuard, rules.OverrideClosure},
+		Rules: []*core.Rule{rules.SetOwnGuard, rules.OverrideClosure, rules.LazyOrder, rules.PropCounters},
 		Explanation: "R-SETOWNGUARD (OrdinarySet belief, sibling contradiction rule): in every function carrying the Receiver of a [[Set]] (a `receiver Value` parameter), each X.self.setOwn{Str,Idx,Sym} call is control-dependent on receiver == X for the same SSA value X. " +
-			"R-OVERRIDECLOSURE: from go/types method sets, for each of the ~50 object kinds and each key kind K, if getOwnProp<K> resolves outside baseObject (the kind answers [[GetOwnProperty]] from custom storage) then get/hasOwnProperty/delete/defineOwnProperty/setOwn/setForeign/hasProperty<K> and the matching enumerators also resolve outside baseObject, or the baseObject version provably only dispatches back through o.val.self to overridden methods, or the (kind, method) pair is an audited table exception.",
-		Technique:  "control dependence on a receiver-identity test (SSA); method-set matrix closure over go/types with virtual-dispatch discharge",
+			"R-OVERRIDECLOSURE: from go/types method sets, for each of the ~50 object kinds and each key kind K, if getOwnProp<K> resolves outside baseObject (the kind answers [[GetOwnProperty]] from custom storage) then get/hasOwnProperty/delete/defineOwnProperty/setOwn/setForeign/hasProperty<K> and the matching enumerators also resolve outside baseObject, or the baseObject version provably only dispatches back through o.val.self to overridden methods, or the (kind, method) pair is an audited table exception. " +
+			"Key-order bookkeeping (index keys are moved to the front lazily): R-LAZYORDER - every read of idxPropCount outside the bookkeeping is dominated by ensurePropOrder()/fixPropOrder() on the same object ('no index keys' shortcuts are only valid on an up-to-date counter); R-PROPCOUNTERS - in _delete each of lastSortedPropLen/idxPropCount is decremented under the comparison of the removed position with that very counter and under no comparison with the smaller one.",
+		Technique:  "control dependence on a receiver-identity test (SSA); method-set matrix closure over go/types with virtual-dispatch discharge; dominance of a refresh call; controlling-condition sets of counter decrements",
 		DesignRef:  "DESIGN.md section 4, C04",
-		NotCovered: "the decision table of ValidateAndApplyPropertyDescriptor (_defineOwnProperty), key ordering bookkeeping (idxPropCount/lastSortedPropLen), freeze/seal outcomes, ArraySetLength, per-kind exotic semantics: value-level; R-EXTENSIBLE is not armed",
+		NotCovered: "the decision table of ValidateAndApplyPropertyDescriptor (_defineOwnProperty), the sorting done by fixPropOrder itself, freeze/seal outcomes, ArraySetLength, per-kind exotic semantics: value-level; R-EXTENSIBLE is not armed",
 	},
 	{
 		ID:    "C05",
-		Rules: []*core.Rule{rules.NumBirth},
+		Rules: []*core.Rule{rules.NumBirth, rules.NumRange, rules.JSWhitespace},
 		Explanation: "Canonical numeric representation (no integral float in ±2^53 other than -0 is ever stored as valueFloat) is a necessary condition for SameValue/===/Map-key equality of equal numbers, because valueInt.SameAs/hash compare representations. " +
-			"R-NUMBIRTH enumerates every SSA birth of a valueFloat in the module (Convert/ChangeType from a non-valueFloat, arithmetic on valueFloat) and requires an enumerated idiom: a constant that is not an integer in ±2^53, math.NaN/Inf, the -0 package constant, or a birth on the ok==false edge of floatToInt applied to the same SSA value.",
-		Technique:  "who-may-construct rule over SSA births of valueFloat + dominance by the floatToInt !ok edge",
+			"R-NUMBIRTH enumerates every SSA birth of a valueFloat in the module (Convert/ChangeType from a non-valueFloat, arithmetic on valueFloat) and requires an enumerated idiom: a constant that is not an integer in ±2^53, math.NaN/Inf, the -0 package constant, or a birth on the ok==false edge of floatToInt applied to the same SSA value. " +
+			"R-NUMRANGE (sibling agreement): the comparisons with +-2^53 controlling the valueInt result of intToValue and the ok=true result of floatToInt admit the boundary value in both (a finite question about comparison operators, not about values). " +
+			"R-JSWHITESPACE: StringToNumber/trim use ECMAScript's white-space set: in package goja strings.TrimSpace/Fields are applied only to the content of an asciiString (below 0x80 Go's and ECMAScript's sets coincide); every other string is trimmed with parser.WhitespaceChars.",
+		Technique:  "who-may-construct rule over SSA births of valueFloat + dominance by the floatToInt !ok edge; comparison-operator agreement between sibling canonicalisers; who-may-call with argument typing",
 		DesignRef:  "DESIGN.md section 4, C05",
 		NotCovered: "that toInt32/ToNumber/string->number compute the right number; the Equals/hash tables themselves; valueInt range (R-INTBIRTH not armed)",
 	},
